@@ -114,7 +114,7 @@ def read_ace(line: str, acl_type: str = "extended") -> dict:
     return {
         "kind": "ace", "type": acl_type, "seq": seq, "action": action, "proto": proto,
         "src": src, "sport": sport, "dst": dst, "dport": dport,
-        "flags": flags, "logs": logs, "forms": forms,
+        "flags": flags, "logs": logs, "forms": forms, "opts": tuple(opts),
     }
 
 
